@@ -370,7 +370,13 @@ impl Mem {
         let g = lock(&self.0.sender);
         match &*g {
             Some(s) => {
-                let ok = s.send_multiple(es).is_ok();
+                // every other batch goes through an iterator that gives no upper size bound
+                let ok = if self.0.sent.load(SeqCst) % 2 == 0 {
+                    let mut it = es.into_iter();
+                    s.send_multiple(std::iter::from_fn(move || it.next())).is_ok()
+                } else {
+                    s.send_multiple(es).is_ok()
+                };
                 if ok {
                     self.0.sent.fetch_add(1, SeqCst);
                 }
